@@ -94,7 +94,7 @@ def _parse(out: str, res: TLCResult, init_names=("Init",)):
             if te < 0:
                 te = out.find("states generated", ti)
             trace = out[ti:te if te > 0 else None]
-            trace = trace[:200000]
+            trace = trace[:8000000]
         res.violation = {"kind": kind, "name": name, "trace": trace}
 
 
@@ -318,7 +318,7 @@ def parse_counterexample(trace_text: str):
         act = m.group(2).split(" ")[0]
         try:
             st = parse_state(m.group(3))
-        except ValueError:
-            st = {"_raw": m.group(3)}
+        except (ValueError, IndexError):
+            st = {"_raw": m.group(3)[:2000]}
         out.append((act, st))
     return out
